@@ -27,8 +27,12 @@ mod driver {
         }
         let protocol = mk(u(case, "msg.protocol"), u(case, "msg.protocol.len"));
         let data = format!("data-{:016x}", u(case, "msg.data")).into_bytes();
-        let from = mk(u(case, "msg.from"), u(case, "msg.from.len"));
-        let source = mk(u(case, "conn.source"), u(case, "conn.source.len"));
+        fn short(case: &Value, name: &str) -> String {
+            let n = (u(case, &format!("{name}.len")) as usize).min(4);
+            (0..n).map(|i| (u(case, &format!("{name}.b{i}")) as u8) as char).collect()
+        }
+        let from = short(case, "msg.from");
+        let source = short(case, "conn.source");
         let bytes = if b(case, "decode.ok") {
             let m = WireMessage { protocol: protocol.clone(), data: data.clone(), from: from.clone(), timestamp: u(case, "msg.timestamp") };
             postcard::to_stdvec(&m).unwrap()
